@@ -109,7 +109,17 @@ def exec_read(job):
                 else:
                     sid = lookup.get(float(st[k]), -1)
                 rows.append([sid] + [lookup.get(float(v), -1) for v in pos[k]] + [lookup.get(float(v), -1) for v in q[k]])
-        return {"out": "ok", "rows": rows, "ns_to_s": ns_ok}
+        rot_ok = True
+        if fmt != "kitti":
+            for k in range(t.num_poses):
+                qk = np.asarray(q[k], dtype=float)
+                nq = float(np.dot(qk, qk))
+                if np.all(np.isfinite(qk)) and 1e-200 < nq < 1e200:
+                    want = geom.quat_to_matrix(qk / math.sqrt(nq))
+                    got = np.asarray(t.poses_se3[k])[:3, :3]
+                    if not np.all(np.isfinite(got)) or np.max(np.abs(got - want)) > 1e-9:
+                        rot_ok = False
+        return {"out": "ok", "rows": rows, "ns_to_s": ns_ok, "rot_ok": bool(rot_ok)}
     finally:
         shutil.rmtree(d, ignore_errors=True)
 
@@ -163,17 +173,22 @@ def exec_transform(job):
         enc, cls = c["enc"], c["cls"]
         if enc == "json":
             q = geom.quat_wxyz((2, -3, -1))
-            scale = {"se3": None, "sim3": 2.0, "sim3small": 0.125, "sim3milli": 2.0 ** -10, "sim3kilo": 1024.0, "negscale": -2.0, "zeroscale": 0}[cls]
+            scale = {"se3": None, "se3int": None, "sim3": 2.0, "sim3small": 0.125, "sim3milli": 2.0 ** -10, "sim3kilo": 1024.0, "negscale": -2.0, "zeroscale": 0}[cls]
             data = {"x": 1.5, "y": -2.25, "z": 1024.0, "qw": q[0], "qx": q[1], "qy": q[2], "qz": q[3]}
             if scale is not None:
                 data["scale"] = scale
+            if cls == "se3int":             # a transform spelled with integer literals only (identity rotation, integer translation)
+                data = {"x": 1, "y": -2, "z": 1024, "qw": 1, "qx": 0, "qy": 0, "qz": 0}
+                expected = np.eye(4)
+                expected[:3, 3] = [1.0, -2.0, 1024.0]
             path = os.path.join(d, "t.json")
             if n % 2:           # the keys of a JSON object have no order
                 data = dict(sorted(data.items(), reverse=bool(n % 4 == 1)))
             json.dump(data, open(path, "w"))
-            expected = np.eye(4)
-            expected[:3, :3] = (scale if scale is not None else 1.0) * geom.o24_matrix((2, -3, -1))
-            expected[:3, 3] = [1.5, -2.25, 1024.0]
+            if cls != "se3int":
+                expected = np.eye(4)
+                expected[:3, :3] = (scale if scale is not None else 1.0) * geom.o24_matrix((2, -3, -1))
+                expected[:3, 3] = [1.5, -2.25, 1024.0]
         else:
             expected = _transform_matrix(cls)
             path = os.path.join(d, "t.npy" if enc == "npy" else "t.txt")
